@@ -9,10 +9,10 @@ use serde_json::{json, Value};
 pub const DEF: PropDef = PropDef {
     id: "C01",
     level: "exploration",
-    rule: "complete enumeration of (1) all strings over a 28-symbol alphabet with one representative per lexer branch, (2) all space-joined sequences over an 83-lexeme alphabet covering every token type, (3) the full single-edit (and, thorough, bounded double-edit) lexeme neighbourhood of a corpus of valid programs, (4) a fixed nesting-depth family, (5) 41 Unicode class representatives (non-ASCII white space and look-alikes, non-ASCII digits and numerals, letters whose case mappings change length, title-case and caseless letters, combining marks, joiners, astral characters, typographic quotes) alone and in all pairs in 20 lexical positions, (6) tokens of every byte length 0..140 and around 256 / 1024 / 4096 / 65536 with a multi-byte tail (2-, 3-, 4-byte characters) in 10 token kinds an error message can quote; each text is parsed in the checked and in the release build; non-trivial = the text lexes to at least 2 tokens or contains an error token; distinct = distinct text",
+    rule: "complete enumeration of (1) all strings over a 28-symbol alphabet with one representative per lexer branch, (2) all space-joined sequences over an 83-lexeme alphabet covering every token type, (3) the full single-edit (and, thorough, bounded double-edit) lexeme neighbourhood of a corpus of valid programs, (4) a fixed nesting-depth family with runs of 1000 / 30 000 / 200 000 repetitions of 20 ignorable or repeatable units (comments, blank lines, punctuation, statements, list elements) alone and inside statements, (5) 41 Unicode class representatives (non-ASCII white space and look-alikes, non-ASCII digits and numerals, letters whose case mappings change length, title-case and caseless letters, combining marks, joiners, astral characters, typographic quotes) alone and in all pairs in 20 lexical positions, (6) tokens of every byte length 0..140 and around 256 / 1024 / 4096 / 65536 with a multi-byte tail (2-, 3-, 4-byte characters) in 10 token kinds an error message can quote; each text is parsed in the checked and in the release build; non-trivial = the text lexes to at least 2 tokens or contains an error token; distinct = distinct text",
     assumptions: &[
         "the checked build (debug-assertions, overflow-checks) turns every violated unsafe precondition of rrss into a panic; release-only misbehaviour is observed through the differential of the rendered result",
-        "hang = a single parse burning more than 10 s of CPU",
+        "hang = a single parse burning more than 10 s of CPU", "the checked build is opt-level 1 with debug assertions and overflow checks; the depth family additionally runs through the unoptimised debug build of the rrss binary (rrss lint FILE: parse + lint passes), where recursion that an optimiser would turn into a loop still consumes stack",
         "texts outside the alphabets/bounds (longer strings, other characters of the same class) are not covered",
     ],
     build,
@@ -148,6 +148,20 @@ pub fn depth_family() -> Vec<String> {
         v.push("'".repeat(k) + "s");
         v.push("\n".repeat(k) + "else");
     }
+    // long runs of one ignorable or repeatable unit: anything handled by recursion instead of a loop
+    // runs out of stack here (block and operator nesting is the recorded finding D15 and is not in this list)
+    for n in [1000usize, 30000, 200000] {
+        for unit in ["(c) ", "(c)", "(a\nb) ", "\n", " ", "say 1\n", "say 1\n\n", "x ", "1 ", "\"s\" ", ", ", "' ", "! ", "a's ", ". ", "x is a b. c\n", "rock x with 1\n", "'n' ", "\u{a0}", "; "] {
+            v.push(unit.repeat(n));
+            v.push(format!("say 1 {}plus 2\n", unit.repeat(n)));
+            v.push(format!("x is {}a\nsay x\n", unit.repeat(n)));
+        }
+        v.push(format!("rock x with 1{}\n", ", 1".repeat(n)));
+        v.push(format!("say 1{}\n", " plus 1".repeat(n.min(3000)))); // a chain is a tree as deep as it is long: 30 000 operators abort like D15
+        v.push(format!("build x up{}\n", ", up".repeat(n)));
+        v.push(format!("x is {}\n", "ab ".repeat(n)));
+        v.push(format!("x says {}\n", "ab (c) ".repeat(n)));
+    }
     // far positions (lines / columns beyond 2^8 and 2^16) and long tokens
     for k in [255usize, 256, 65535, 65536, 70000] {
         v.push("\n".repeat(k) + "x a1 \"u");
@@ -161,8 +175,21 @@ pub fn depth_family() -> Vec<String> {
     v
 }
 
+/// the recorded finding D15: block nesting far beyond the depth family overflows the stack of the
+/// recursive-descent parser (an abort, in both builds, on the 8 MiB stacks the workers and the CLI use)
+pub fn deep_nesting_probe() -> String {
+    format!("{}say 1\n", "if x\n".repeat(PROBE_DEPTH))
+}
+pub const PROBE_DEPTH: usize = 3000;
+
 pub struct C01 {
     fams: Vec<(String, Space<String>)>,
+    thorough: bool,
+}
+
+/// 200 000 statements take the unoptimised binary 3..10 s each: left to the thorough tier
+fn heavy_for_the_debug_binary(text: &str) -> bool {
+    text.len() > 1_000_000 && ["say 1\n", "x is a b. c\n", "rock x with 1\n", "x is say 1\n", "x is x is a b. c\n", "x is rock x with 1\n", "rock x with 1, 1"].iter().any(|p| text.starts_with(p))
 }
 
 fn build(tier: Tier) -> Box<dyn Check> {
@@ -180,7 +207,10 @@ fn build(tier: Tier) -> Box<dyn Check> {
     let edits2 = double_edit_space(short);
     let depth = Space::of(depth_family());
     Box::new(C01 {
+        thorough: tier == Tier::Thorough,
+        // first, so that the worker that aborts on it has nothing else to lose and resumes behind it
         fams: vec![
+            ("recorded-finding-probe".into(), Space::of(vec![deep_nesting_probe()])),
             ("chars".into(), chars),
             ("lexemes".into(), lexs),
             ("edit1".into(), edits1),
@@ -190,6 +220,66 @@ fn build(tier: Tier) -> Box<dyn Check> {
             ("long-multibyte-tokens".into(), Space::of(lexemes::long_multibyte_texts())),
         ],
     })
+}
+
+impl C01 {
+    fn through_debug_binary(&self, idx: u64, text: &str, ctx: &mut Ctx) {
+        use std::io::Read;
+        use std::process::{Command, Stdio};
+        let dir = std::path::PathBuf::from(crate::engine::orch::verif_dir()).join("target/tmp").join(format!("c01-{}", std::process::id()));
+        std::fs::create_dir_all(&dir).ok();
+        let path = dir.join(format!("d{}.rock", idx));
+        if std::fs::write(&path, text).is_err() {
+            panic!("cannot write {}", path.display());
+        }
+        let bin = super::c20::bin_path();
+        // `lint` = parse + the lint passes, nothing printed for these texts (`parse` pretty-prints the tree,
+        // which is quadratic in the nesting depth)
+        let mut child = match Command::new(&bin).arg("lint").arg(&path).env("NO_COLOR", "1").stdin(Stdio::null()).stdout(Stdio::null()).stderr(Stdio::piped()).spawn() {
+            Ok(c) => c,
+            Err(e) => panic!("cannot run the rrss binary {}: {}", bin.display(), e),
+        };
+        let mut err = child.stderr.take().unwrap();
+        let reader = std::thread::spawn(move || {
+            let mut b = Vec::new();
+            let _ = err.read_to_end(&mut b);
+            b
+        });
+        let start = std::time::Instant::now();
+        let status = loop {
+            match child.try_wait() {
+                Ok(Some(s)) => break Some(s),
+                Ok(None) => {
+                    if start.elapsed().as_secs() > 120 {
+                        let _ = child.kill();
+                        let _ = child.wait();
+                        break None;
+                    }
+                    std::thread::sleep(std::time::Duration::from_millis(5));
+                }
+                Err(_) => break None,
+            }
+        };
+        let stderr = reader.join().unwrap_or_default();
+        let _ = std::fs::remove_file(&path);
+        ctx.count("cov.texts_through_the_debug_binary");
+        match status {
+            None => ctx.violation("hang", format!("`rrss lint FILE` (debug binary) did not finish within 120 s on a text of {} bytes starting {:?}", text.len(), crate::engine::orch::truncate(text, 60))),
+            Some(s) if s.code().is_none() => {
+                let tail = String::from_utf8_lossy(&stderr);
+                ctx.violation(
+                    "abort",
+                    format!("`rrss lint FILE` (debug binary, opt-level 0) was killed by a signal on a text of {} bytes starting {:?}; stderr tail: {}", text.len(), crate::engine::orch::truncate(text, 60), crate::engine::orch::truncate(tail.trim_end(), 200)),
+                );
+            }
+            Some(s) => {
+                if s.code() == Some(101) {
+                    let tail = String::from_utf8_lossy(&stderr);
+                    ctx.violation("panic", format!("`rrss lint FILE` (debug binary) panicked on a text of {} bytes starting {:?}: {}", text.len(), crate::engine::orch::truncate(text, 60), crate::engine::orch::truncate(tail.trim_end(), 200)));
+                }
+            }
+        }
+    }
 }
 
 impl Check for C01 {
@@ -207,6 +297,11 @@ impl Check for C01 {
     fn run_case(&self, fam: usize, idx: u64, ctx: &mut Ctx) {
         let text = self.fams[fam].1.get(idx);
         ctx.case_text(&text);
+        // the depth family also goes through the unoptimised rrss binary (`rrss parse FILE`, a true debug
+        // build: no tail calls, the largest stack frames) — once, from the checked configuration
+        if self.fams[fam].0 == "depth" && cfg!(debug_assertions) && (self.thorough || !heavy_for_the_debug_binary(&text)) {
+            self.through_debug_binary(idx, &text, ctx);
+        }
         // token census (also exercises the lexer on its own)
         let mut ntok = 0usize;
         let mut has_err = false;
